@@ -103,6 +103,143 @@ fn stream_eval(fields: &[&str]) -> String {
     })
 }
 
+/// errfmt: `<expr hex>\t<offset>` → `line=<l> col=<c> text=<hex of Display>` for `JmespathError::new(expr, offset, Parse("x"))`
+fn stream_errfmt(fields: &[&str]) -> String {
+    let expr = unhex_str(fields[0]);
+    let offset: usize = fields[1].parse().unwrap();
+    guarded(|| {
+        let e = jmespath::JmespathError::new(&expr, offset, jmespath::ErrorReason::Parse("x".to_owned()));
+        format!("line={} col={} text={}", e.line, e.column, hex(e.to_string().as_bytes()))
+    })
+}
+
+fn sig_menu(k: usize) -> Option<jmespath::functions::Signature> {
+    use jmespath::functions::{ArgumentType as A, Signature};
+    match k {
+        0 => None,
+        1 => Some(Signature::new(vec![A::Any], None)),
+        2 => Some(Signature::new(vec![A::Number, A::String], None)),
+        3 => Some(Signature::new(vec![A::Expref, A::Array], None)),
+        4 => Some(Signature::new(vec![A::Any], Some(A::Any))),
+        5 => Some(Signature::new(
+            vec![A::Union(vec![A::TypedArray(Box::new(A::Number)), A::TypedArray(Box::new(A::String))])],
+            None,
+        )),
+        _ => Some(Signature::new(vec![], None)),
+    }
+}
+
+fn custom_fn(id: u64, sig: usize) -> Box<dyn jmespath::functions::Function> {
+    use jmespath::functions::CustomFunction;
+    let body = move |args: &[Rcvar], _ctx: &mut jmespath::Context<'_>| -> Result<Rcvar, jmespath::JmespathError> {
+        let mut m = std::collections::BTreeMap::new();
+        m.insert("args".to_string(), Rcvar::new(Variable::Array(args.to_vec())));
+        m.insert("id".to_string(), Rcvar::new(Variable::Number(serde_json::Number::from(id))));
+        Ok(Rcvar::new(Variable::Object(m)))
+    };
+    match sig_menu(sig) {
+        Some(s) => Box::new(CustomFunction::new(s, Box::new(body))),
+        None => Box::new(body),
+    }
+}
+
+/// registry: `<ops>\t<doc>\t<expr hex>,<expr hex>,…` with ops `;`-separated: `r:<namehex>:<id>:<sig>`, `d:<namehex>`, `b`
+/// → one result per query, `|`-separated
+fn stream_registry(fields: &[&str]) -> String {
+    guarded(|| {
+        let mut rt = jmespath::Runtime::new();
+        for op in fields[0].split(';').filter(|o| !o.is_empty()) {
+            let p: Vec<&str> = op.split(':').collect();
+            match p[0] {
+                "r" => rt.register_function(&unhex_str(p[1]), custom_fn(p[2].parse().unwrap(), p[3].parse().unwrap())),
+                "d" => {
+                    rt.deregister_function(&unhex_str(p[1]));
+                }
+                "b" => rt.register_builtin_functions(),
+                _ => panic!("bad op"),
+            }
+        }
+        let doc = Rcvar::new(parse_value(fields[1]));
+        let mut outs = vec![];
+        for q in fields[2].split(',').filter(|q| !q.is_empty()) {
+            let expr = unhex_str(q);
+            outs.push(match rt.compile(&expr) {
+                Err(e) => format!("C {}", err_str(&e)),
+                Ok(c) => match c.search(doc.clone()) {
+                    Ok(r) => format!("ok {}", value_str(&r)),
+                    Err(e) => err_str(&e),
+                },
+            });
+        }
+        outs.join(" | ")
+    })
+}
+
+/// history: `<docs ';'-separated>\t<ops ';'-separated>`; ops: `c<k>:<exprhex>` compile into slot k, `l<k>:<j>` clone slot j into k,
+/// `s<k>:<docidx>` search, `x<k>` drop.  → per op result, then `docs=same|changed`, then `fresh=ok|DIFF@i`
+fn stream_history(fields: &[&str]) -> String {
+    guarded(|| {
+        let doc_src: Vec<&str> = fields[0].split(';').collect();
+        let docs: Vec<Rcvar> = doc_src.iter().map(|d| Rcvar::new(parse_value(d))).collect();
+        let mut slots: Vec<Option<jmespath::Expression<'static>>> = (0..8).map(|_| None).collect();
+        let mut outs = vec![];
+        let mut fresh = "ok".to_string();
+        for (i, op) in fields[1].split(';').filter(|o| !o.is_empty()).enumerate() {
+            let kind = &op[..1];
+            let rest: Vec<&str> = op[1..].split(':').collect();
+            let k: usize = rest[0].parse().unwrap();
+            match kind {
+                "c" => match jmespath::compile(&unhex_str(rest[1])) {
+                    Ok(e) => {
+                        outs.push(format!("ok {}", ast_str(e.as_ast())));
+                        slots[k] = Some(e);
+                    }
+                    Err(e) => {
+                        outs.push(err_str(&e));
+                        slots[k] = None;
+                    }
+                },
+                "l" => {
+                    let j: usize = rest[1].parse().unwrap();
+                    slots[k] = slots[j].clone();
+                    outs.push(if slots[k].is_some() { "cloned".into() } else { "empty".into() });
+                }
+                "x" => {
+                    slots[k] = None;
+                    outs.push("dropped".into());
+                }
+                "s" => {
+                    let j: usize = rest[1].parse().unwrap();
+                    match &slots[k] {
+                        None => outs.push("empty".into()),
+                        Some(e) => {
+                            let r = match e.search(docs[j].clone()) {
+                                Ok(r) => format!("ok {}", value_str(&r)),
+                                Err(e) => err_str(&e),
+                            };
+                            // a fresh compile + search on a fresh copy of the document must agree
+                            let f = match jmespath::compile(e.as_str()) {
+                                Err(e) => err_str(&e),
+                                Ok(c) => match c.search(Rcvar::new(parse_value(doc_src[j]))) {
+                                    Ok(r) => format!("ok {}", value_str(&r)),
+                                    Err(e) => err_str(&e),
+                                },
+                            };
+                            if f != r && fresh == "ok" {
+                                fresh = format!("DIFF@{}", i);
+                            }
+                            outs.push(r);
+                        }
+                    }
+                }
+                _ => panic!("bad op"),
+            }
+        }
+        let same = docs.iter().zip(doc_src.iter()).all(|(d, s)| value_str(d) == *s);
+        format!("{}\tdocs={}\tfresh={}", outs.join(" | "), if same { "same" } else { "changed" }, fresh)
+    })
+}
+
 fn main() {
     std::panic::set_hook(Box::new(|_| {}));
     let stream = std::env::args().nth(1).expect("usage: vharness <stream>");
@@ -116,6 +253,9 @@ fn main() {
             "slice" => stream_slice(&fields),
             "parse" => stream_parse(&fields),
             "eval" => stream_eval(&fields),
+            "errfmt" => stream_errfmt(&fields),
+            "registry" => stream_registry(&fields),
+            "history" => stream_history(&fields),
             s => panic!("unknown stream {}", s),
         };
         writeln!(out, "{}", res).unwrap();
